@@ -237,6 +237,10 @@ _NARROW = {"uint8": 255, "int16": 32767, "int32": 2**31 - 1}
 @st.composite
 def _ova_cases(draw):
     kind, cls = draw(class_sets())
+    if draw(st.integers(0, 5)) == 0:
+        # classes that are dates / time stamps (months, or nanoseconds as pandas holds them)
+        kind = draw(st.sampled_from(["datetime64[M]", "datetime64[ns]", "timedelta64[s]"]))
+        cls = draw(st.lists(st.integers(0, 400), min_size=len(cls), max_size=len(cls), unique=True))
     K = len(cls)
     lead = draw(st.sampled_from(LEADS))
     n = gen.shape_size(lead) * K * K
@@ -249,12 +253,21 @@ def _ova_cases(draw):
         ent = (st.one_of(st.just(0), st.integers(0, 12), st.integers(0, 10**6)) if dtype in ("int", "uint64")
                else st.one_of(st.just(0.0), st.integers(0, 40).map(lambda x: x / 4)))
     flat = draw(st.lists(ent, min_size=n, max_size=n))
+    hub = False
+    if dtype == "float" and K >= 3 and draw(st.integers(0, 3)) == 0:
+        # weights in tenths, all mass in the row and the column of one "hub" class: its exact TN is 0
+        h = draw(st.integers(0, K - 1))
+        tenths = draw(st.lists(st.integers(0, 9), min_size=n, max_size=n))
+        flat = [t / 10 if (idx // K) % K == h or idx % K == h else 0.0 for idx, t in enumerate(tenths)]
+        hub = True
     if dtype == "uint64" and n:
         # counts beyond 2^53 held as unsigned 64-bit integers (e.g. inherited from uint64 weights)
         flat = [min(v, 10**6) for v in flat]
         flat[draw(st.integers(0, n - 1))] = draw(st.sampled_from([2**60 + 1, 2**53 + 1, 2**62 + 12345]))
     scale = 1.0
-    if dtype == "float":
+    if hub:
+        scale = 0.1  # sums of tenths are not exact
+    elif dtype == "float":
         # the overall scale of a weighted / normalised matrix is arbitrary
         scale = draw(st.sampled_from([1.0, 1.0, 1e-11, 1e-9, 1e-6, 1e-3, 1e6, 1e12]))
         flat = [v * scale for v in flat]
@@ -285,6 +298,12 @@ def check_ova(case):
     from score_analysis import ConfusionMatrix, metrics
 
     cls = case["classes"]
+    if str(case.get("kind", "")).startswith(("datetime64", "timedelta64")):
+        base = np.datetime64("2020-01") if "[M]" in case["kind"] else np.datetime64("2024-05-01T00:00:00", "ns") \
+            if case["kind"].startswith("datetime64") else np.timedelta64(0, "s")
+        step = np.timedelta64(1, "M") if "[M]" in case["kind"] else np.timedelta64(3_600_000_000_123, "ns") \
+            if case["kind"].startswith("datetime64") else np.timedelta64(90, "s")
+        cls = list(np.asarray([base + int(k) * step for k in cls]))  # NumPy date / duration scalars
     K = len(cls)
     lead = tuple(case["lead"])
     dt = np.float64 if case["dtype"] == "float" else np.int64
